@@ -575,6 +575,18 @@ func (u *Unit) evalCall(e *SExpr, env *Env) Val {
 		return Val{T: u.termOf(x)}
 	case "ret", "ret0", "ret1", "ret2":
 		return u.evalRet(e, env)
+	case "cast", "istype":
+		// cast(x, pkg.T) / istype(x, pkg.T): the interface value x holds a *pkg.T
+		x := u.eval(e.Args[0], env)
+		if x.T.Sort != "Iface" {
+			u.specFail("%s needs an interface value", e.Name)
+		}
+		pt := u.specPointerType(e.Args[1], env)
+		f, tag := u.ifaceTag(pt, "Int")
+		if e.Name == "istype" {
+			return Val{T: eq(app("Int", "itag", x.T), intLit(int64(tag)))}
+		}
+		return Val{T: app("Int", "un"+f, x.T), Typ: pt}
 	case "fresh":
 		// fresh(p): p was allocated after the state old() refers to
 		x := u.eval(e.Args[0], env)
